@@ -60,9 +60,42 @@ func driveC07(c *Ctx) error {
 	for _, e := range ts {
 		c.Out.Emit(J{"ev": "tdef", "i": e.i, "t": ProjectType(e.t)})
 	}
-	for _, e := range ts {
+	// descriptions serialized in a first pass over ALL types and kept (through both entry points), to be decoded
+	// only after every other type has been serialized too: a description belongs to the caller once returned
+	kept := make([][]byte, len(ts))
+	for k, e := range ts {
+		k, e := k, e
+		guard(func() {
+			var b []byte
+			var err error
+			if k%2 == 0 {
+				b, err = ctyjson.MarshalType(e.t)
+			} else {
+				b, err = e.t.MarshalJSON()
+			}
+			if err == nil {
+				kept[k] = b
+			}
+		})
+	}
+	for k, e := range ts {
 		t := e.t
 		ev := J{"ev": "tone", "i": e.i}
+		if kept[k] != nil {
+			var rt2 J
+			p2, msg2 := guard(func() {
+				back, err := ctyjson.UnmarshalType(kept[k])
+				if err != nil {
+					rt2 = J{"ok": false, "fail": "unmarshal", "msg": trunc(err.Error())}
+					return
+				}
+				rt2 = J{"ok": true, "t": ProjectType(back), "eq": back.Equals(t), "eqr": t.Equals(back)}
+			})
+			if p2 {
+				rt2 = J{"ok": false, "fail": "panic", "msg": trunc(msg2)}
+			}
+			ev["json2"] = rt2
+		}
 		ev["hasdyn"] = t.HasDynamicTypes()
 		ev["eqself"] = t.Equals(t)
 		s1 := t.WithoutOptionalAttributesDeep()
